@@ -14,14 +14,14 @@ class ElementDG(Element):
                               + elem.interior_dofs)
         self.dofnames = (
             elem.refdom.nnodes * elem.dofnames[:elem.nodal_dofs]
-            + elem.refdom.nfacets * elem.dofnames[slice(elem.nodal_dofs,
-                                                        (elem.nodal_dofs
-                                                         + elem.facet_dofs))]
-            + elem.refdom.nedges * elem.dofnames[slice((elem.nodal_dofs
-                                                        + elem.facet_dofs),
+            + elem.refdom.nedges * elem.dofnames[slice(elem.nodal_dofs,
                                                        (elem.nodal_dofs
-                                                        + elem.facet_dofs
                                                         + elem.edge_dofs))]
+            + elem.refdom.nfacets * elem.dofnames[slice((elem.nodal_dofs
+                                                         + elem.edge_dofs),
+                                                        (elem.nodal_dofs
+                                                         + elem.edge_dofs
+                                                         + elem.facet_dofs))]
             + elem.dofnames[(elem.nodal_dofs
                              + elem.facet_dofs
                              + elem.edge_dofs):]
